@@ -109,6 +109,55 @@ def fmt_cross_check(ctx, cmd):
     return out
 
 
+def _xfields(line):
+    w = line.split(" ")
+    return w[0], dict(kv.split("=", 1) for kv in w[2:] if "=" in kv)
+
+
+def own_level_correspondence(ctx, res):
+    """S2, ownership-level model (coq/Reopen/Snapshot.v, extracted xstep / open_path / closed_image / commit_flags):
+    the driver carries the durable image (allocator-state table present? its id; two-phase flag; version id) and the
+    needs_repair latch along the recorded history; per event its prediction is compared with what the crate's
+    state shows (H3: needs_repair, header flag, durable id; allocator-state table id under the durable root; path
+    taken by the open / by an open of a copy of the file right after a quick-repair commit)."""
+    out = {"events": 0, "compared_fields": 0, "differences": [], "kinds": {}}
+    ev = _lines(ctx, "xev.txt")
+    impl = _lines(ctx, "ximpl.txt")
+    if not ev:
+        return out
+    open(os.path.join(ctx.workdir, "xev_in.txt"), "w").write("\n".join(ev) + "\n")
+    rc, err = ctx.driver("c11", "xev_in.txt", "xmodel.txt")
+    if rc != 0:
+        out["differences"].append({"driver": "failed rc=%s %s" % (rc, err)})
+        return out
+    model = _lines(ctx, "xmodel.txt")
+    if not (len(ev) == len(impl) == len(model)):
+        out["differences"].append({"length": "events %d, implementation lines %d, model lines %d" % (len(ev), len(impl), len(model))})
+        return out
+    out["events"] = len(ev)
+    for e, a, b in zip(ev, impl, model):
+        kind = e.split(" ")[2] if len(e.split(" ")) > 2 else "?"
+        out["kinds"][kind] = out["kinds"].get(kind, 0) + 1
+        ha, fa = _xfields(a)
+        hb, fb = _xfields(b)
+        bad = []
+        if ha != hb or set(fa) != set(fb):
+            bad.append("shape")
+        else:
+            for k in fb:
+                mv, iv = fb[k], fa[k]
+                if mv == "*":
+                    continue
+                if mv == "=":          # snapshot id known only relative to the version id: fresh
+                    mv = fa.get("id")
+                out["compared_fields"] += 1
+                if mv != iv:
+                    bad.append(k)
+        if bad:
+            out["differences"].append({"history": int(ha), "event": e, "fields": bad, "implementation": a, "model": b})
+    return out
+
+
 def analyse(ctx, n, only=None):
     res = {"ok": False, "detail": None, "s2": [], "opens": 0, "nontrivial": 0, "stats": "", "samples": []}
     rc, out = ctx.harness("c11", [n] + consts(ctx) + ([only] if only is not None else []))
@@ -145,7 +194,11 @@ def analyse(ctx, n, only=None):
             key = "c11-" + what.split(" ")[1].rstrip(":")
         else:
             w = what.split(" || ")[0]
-            if "allocated != required" in w or "owned twice" in w:
+            if "SNAPSHOT-NOT-EXACT" in w:
+                key = "c11-snapshot-not-exact"
+            elif "REGION-TRACKER" in w or "region tracker" in w:
+                key = "c11-region-tracker-phantom"
+            elif "allocated != required" in w or "owned twice" in w:
                 key = "c11-allocated-not-required"
             elif "contents are not those" in w:
                 key = "c11-contents"
@@ -162,6 +215,9 @@ def analyse(ctx, n, only=None):
                       {"history": int(h), "reproduce": cmd.replace("<history>", h), "finding": parts[0],
                        "history_steps": parts[1].split(" ; ") if len(parts) > 1 else []})
     res["fmt"] = fmt_cross_check(ctx, cmd)
+    res["own"] = own_level_correspondence(ctx, res)
+    for d in res["own"]["differences"]:
+        res["s2"].append(d)
     res["ok"] = True
     return res
 
@@ -204,6 +260,7 @@ def run(ctx):
                 "C11 oracles; evaluations = opens; non-trivial = distinct history with at least one open that passed every oracle stage",
         "samples": r["samples"], "traces_validated_against_impl": r["opens"], "input_distribution": r["stats"],
         "independent_decoder_cross_check": r.get("fmt"),
+        "ownership_level_correspondence": {k: v for k, v in (r.get("own") or {}).items() if k != "differences"},
         "trusted_base": ["Coq 8.16.1 kernel + vm_compute", "tools/gen_consts.py (header offsets handed to the harness)",
                          "harness/src/bin/c11.rs + harness/src/rvdb.rs (generators, crash-image builder, independent header parse)",
                          "extraction (ExtrOcamlBasic only) + ocaml/c11_driver.ml",
@@ -213,5 +270,8 @@ def run(ctx):
     return ctx.finish("proof", cov,
                       assumptions=["the model abstracts an image to god-byte flags and per-slot facts; the commit protocol producing crash images is modelled at the "
                                    "granularity header-old/new x slot bytes old/new/torn x data complete or not (torn pages are C01's subject)",
-                                   "snapshot_exact (a snapshot written by a quick-repair commit equals the required set of that commit) is validated per opened image, not proved"],
+                                   "snapshot_exact / open_exact_all_histories / write_after_open_safe / integrity_clean_all_histories are proved over the page-ownership model "
+                                   "(Txn/Own.v + Reopen/Snapshot.v: abstract page ids, b-tree page churn as an oracle with checked side conditions); that the crate's bookkeeping "
+                                   "follows Own.v's steps is C06's correspondence; here the saved table is compared with the required pages of its commit on every quick-repair "
+                                   "commit (open of a copy of the file) and on every real open, and the carried image / latch of the extracted model with the crate per event"],
                       s2_ok=s2_ok, s2_detail=detail, searched=searched)
